@@ -4,9 +4,9 @@
 package simnet
 
 import (
-	"os"
 	"errors"
 	"io"
+	"os"
 )
 
 // Discipline selects how the receive buffer is managed. All of them honour
@@ -30,6 +30,7 @@ const (
 
 var ErrInjected = errors.New("simnet: injected read error")
 var ErrShort = errors.New("simnet: fewer bytes buffered than requested")
+
 // ErrDeadline is a read error of the "timeout" class (what a connection with a read deadline returns): it wraps
 // os.ErrDeadlineExceeded and reports Timeout() == true.
 var ErrDeadline error = deadlineError{}
